@@ -162,6 +162,38 @@ theorem genx_no_overlap (rs : Array Rect) (bx b : Rat) (rank : Nat → Nat) (inj
     simp only [Rect.getMinY, Rect.getMaxY] at hmeet
     rcases hmeet with h | h <;> linarith
 
+/-- removeoverlaps, thirdPass = false: the LAST pass is the y pass, run with borders
+    (xBorder, yBorder + EXTRA_GAP); whatever the x pass did before, if the solver returns a placement
+    satisfying the generated constraints then, after the borders are restored to (xBorder, yBorder),
+    no two rectangles overlap (as seen through the getters). -/
+theorem removeoverlaps_y_last_no_overlap (rs : Array Rect) (bx b extra : Rat) (hextra : 0 ≤ extra)
+    (rank : Nat → Nat) (inj : RankInjective rank)
+    (evs : List Ev) (hv : ValidOrder (yAxis rs bx (b + extra)) rs.size evs)
+    (hgood : GoodAxis (yAxis rs bx (b + extra)) rs.size)
+    (y : Nat → Rat) (hsat : Sat y (generateYConstraints rs bx (b + extra) rank evs))
+    (i j : Nat) (hi : i < rs.size) (hj : j < rs.size) (hij : i ≠ j) :
+    ¬ Overlap (bordered ((rectAt rs i).moveCentreY (b + extra) (y i)) bx b)
+              (bordered ((rectAt rs j).moveCentreY (b + extra) (y j)) bx b) := by
+  intro hov
+  have := overlap_border_mono (ex := 0) (ey := extra) (le_refl _) hextra hov
+  rw [add_zero] at this
+  exact geny_no_overlap rs bx (b + extra) rank inj evs hv hgood y hsat i j hi hj hij this
+
+/-- removeoverlaps, thirdPass = true: the last pass is the x pass without neighbour lists, run with
+    borders (xBorder + EXTRA_GAP, yBorder) on the rectangles as the y pass left them. -/
+theorem removeoverlaps_x_last_no_overlap (rs : Array Rect) (bx b extra : Rat) (hextra : 0 ≤ extra)
+    (rank : Nat → Nat) (inj : RankInjective rank)
+    (evs : List Ev) (hv : ValidOrder (xAxis rs (bx + extra) b) rs.size evs)
+    (hgood : GoodAxis (xAxis rs (bx + extra) b) rs.size)
+    (x : Nat → Rat) (hsat : Sat x (generateXConstraints rs (bx + extra) b rank evs false))
+    (i j : Nat) (hi : i < rs.size) (hj : j < rs.size) (hij : i ≠ j) :
+    ¬ Overlap (bordered ((rectAt rs i).moveCentreX (bx + extra) (x i)) bx b)
+              (bordered ((rectAt rs j).moveCentreX (bx + extra) (x j)) bx b) := by
+  intro hov
+  have := overlap_border_mono (ex := extra) (ey := 0) hextra (le_refl _) hov
+  rw [add_zero] at this
+  exact genx_no_overlap rs (bx + extra) b rank inj evs hv hgood x hsat i j hi hj hij this
+
 /-! ## (4) the checkers used on the implementation's output are sound -/
 
 /-- `noOverlap rs 0` decides exactly "no two distinct rectangles share an interior point". -/
